@@ -1,6 +1,9 @@
 import EaselModel.Shuffle.Lemmas
 import EaselModel.Shuffle.LemmasRev
 import EaselModel.Shuffle.LemmasMsa
+import EaselModel.Shuffle.LemmasKmer
+import EaselModel.Shuffle.LemmasMarkov1
+import EaselModel.Shuffle.LawfulRat
 /-! # C18 — property theorems (statements + glue only; lemmas live in Shuffle/*.lean)
 
 Every theorem quantifies over every input and every generator state `r : Rng` (hence every seed and every history of
@@ -54,11 +57,11 @@ theorem cReverse_inplace_spec {α : Type} [Inhabited α] (s : Array α) :
   rw [e] at h1
   simpa using h1
 
-/-- `esl_rsq_XReverse(dsq, L, rev)`: residues `1..L` mirrored (alias or not); the C code then sets both sentinels -/
-theorem xReverse_spec (alias : Bool) (dsq rev : Bytes) (L : Nat) (h : L + 2 ≤ dsq.size) (h' : L + 2 ≤ rev.size)
-    (hal : alias = true → rev = dsq) :
-    ((reverse alias dsq rev 1 L).extract 1 (1 + L)).toList = ((dsq.extract 1 (1 + L)).toList).reverse :=
-  reverse_toList alias dsq rev 1 L (by omega) (by omega) hal
+/-- `esl_rsq_XReverse(dsq, L, rev)`: residues `1..L` mirrored (in place or not); the C code then sets both sentinels -/
+theorem xReverse_spec (al : Bool) (dsq rev : Bytes) (L : Nat) (h : L + 2 ≤ dsq.size) (h' : L + 2 ≤ rev.size)
+    (hal : al = true → rev = dsq) :
+    ((reverse al dsq rev 1 L).extract 1 (1 + L)).toList = ((dsq.extract 1 (1 + L)).toList).reverse :=
+  reverse_toList al dsq rev 1 L (by omega) (by omega) hal
 
 /-- in place = out of place, on the residues -/
 theorem reverse_inplace_eq {α : Type} [Inhabited α] (src dst : Array α) (base L : Nat)
@@ -90,6 +93,94 @@ theorem bootstrap_only_input_columns (base alen : Nat) (msa boot : Array Bytes) 
     (hb : ∀ k (hk : k < boot.size), base + alen ≤ boot[k].size) (r : Rng) :
     ∀ p, p < alen → ∃ col, col < alen ∧ column (bootstrap base alen msa boot r).1 (base + p) = column msa (base + col) :=
   (bootstrap_spec base alen msa boot hsz hm hb r).done
+
+
+/-! ## k-mer shuffles -/
+/-- `esl_rsq_CShuffleKmers(r, s, K, shuffled)`: with `W = L / K` words and `P = L % K` leftover residues, the output's words
+    (`K`-mers starting at `P`) are a permutation of the input's consecutive `K`-mers, the leftover prefix `[0,P)` is
+    unchanged, length kept -/
+theorem cShuffleKmers_spec {α : Type} (s : Array α) (K : Nat) (r : Rng) :
+    KmerInv K (s.size % K) (s.size / K) s (shuffleKmers 0 s s.size K r).1 := by
+  simpa using shuffleKmers_inv 0 s s.size K (by omega) r
+
+/-- `esl_rsq_XShuffleKmers(r, dsq, L, K, shuffled)` on the array `dsq[0..L+1]`: words start at `1 + P`; sentinel `dsq[0]`,
+    the leftover residues `dsq[1..P]` and `dsq[L+1]` are unchanged (the statement that failed before fix fb16019) -/
+theorem xShuffleKmers_spec (dsq : Bytes) (L K : Nat) (h : L + 2 ≤ dsq.size) (r : Rng) :
+    KmerInv K (1 + L % K) (L / K) dsq (shuffleKmers 1 dsq L K r).1 :=
+  shuffleKmers_inv 1 dsq L K (by omega) r
+
+/-! ## i.i.d. generation and Markov resampling (`α` = any lawful number type; the driver runs `α = Float`) -/
+section numeric
+variable {α : Type} [CNum α] [LawfulCNum α]
+
+/-- `esl_rsq_IID / fIID / xIID / xfIID`: `L` symbols, every one of non-zero probability -/
+theorem iid_support (p : List α) (L : Nat) (r : Rng) (out : Array Nat) (h : (iidLoop p L r #[]).1 = some out) :
+    out.size = L ∧ ∀ k ∈ out, ∃ q, p[k]? = some q ∧ q ≠ CNum.zero := by
+  have := iidLoop_support p L r #[] out h (by simp)
+  simpa using this
+
+/-- `esl_rsq_xIID(r, NULL, K, L, dsq)`: uniform residues `< K` -/
+theorem iid_uniform (K L : Nat) (hK : 0 < K) (r : Rng) :
+    (iidUniform K L r #[]).1.size = L ∧ ∀ k ∈ (iidUniform K L r #[]).1, k < K := by
+  have := iidUniform_spec K hK L r #[] (by simp)
+  simpa using this
+
+/-- `esl_rsq_CMarkov0`: same length, only residues (case-folded) that occur in the input -/
+theorem cMarkov0_spec (s : Bytes) (r : Rng) (out : Bytes) (h : (cMarkov0 α s r).1 = .ok out) :
+    ∃ codes, out = ofCodesText codes ∧ codes.size = s.size ∧ ∀ k ∈ codes, k ∈ textCodes s := by
+  unfold cMarkov0 at h
+  split at h
+  · simp at h
+  · obtain ⟨codes, h1, h2⟩ := ofOpt_ok _ _ out h
+    obtain ⟨h3, h4⟩ := markov0_support 26 (textCodes s) r codes h1
+    exact ⟨codes, h2, by simpa [textCodes] using h3, h4⟩
+
+/-- `esl_rsq_XMarkov0` -/
+theorem xMarkov0_spec (dsq : Bytes) (L K : Nat) (hL : L + 2 ≤ dsq.size) (r : Rng) (out : Bytes) (h : (xMarkov0 α dsq L K r).1 = .ok out) :
+    ∃ codes, out = ofCodesDigital codes ∧ codes.size = L ∧ ∀ k ∈ codes, k ∈ digitalCodes dsq L := by
+  unfold xMarkov0 at h
+  split at h
+  · simp at h
+  · obtain ⟨codes, h1, h2⟩ := ofOpt_ok _ _ out h
+    obtain ⟨h3, h4⟩ := markov0_support K (digitalCodes dsq L) r codes h1
+    refine ⟨codes, h2, ?_, h4⟩
+    rw [h3]; simp [digitalCodes]; omega
+
+/-- `esl_rsq_CMarkov1`: inputs of length `≤ 2` are copied; otherwise same length, the first residue occurs in the input and
+    every adjacent pair of the output is an adjacent pair of the input read circularly -/
+theorem cMarkov1_spec (s : Bytes) (r : Rng) (out : Bytes) (h : (cMarkov1 α s r).1 = .ok out) :
+    (s.size ≤ 2 ∧ out = s) ∨
+    ∃ codes, out = ofCodesText codes ∧ codes.size = s.size ∧ (∀ pr ∈ adjPairs codes.toList, pr ∈ circPairs (textCodes s)) ∧
+      ∃ x, codes.toList.head? = some x ∧ x ∈ textCodes s := by
+  unfold cMarkov1 at h
+  split at h
+  · simp at h
+  · split at h
+    · rename_i h2; simp only [SeqResult.ok.injEq] at h; exact Or.inl ⟨h2, h.symm⟩
+    · rename_i h2
+      obtain ⟨codes, h1, h3⟩ := ofOpt_ok _ _ out h
+      obtain ⟨h4, h5, h6⟩ := markov1_support 26 (textCodes s) (by simp [textCodes]; omega) r codes h1
+      exact Or.inr ⟨codes, h3, by simpa [textCodes] using h4, h5, h6⟩
+
+/-- `esl_rsq_XMarkov1` -/
+theorem xMarkov1_spec (dsq : Bytes) (L K : Nat) (hL : L + 2 ≤ dsq.size) (r : Rng) (out : Bytes) (h : (xMarkov1 α dsq L K r).1 = .ok out) :
+    (L ≤ 2 ∧ out = dsq) ∨
+    ∃ codes, out = ofCodesDigital codes ∧ codes.size = L ∧ (∀ pr ∈ adjPairs codes.toList, pr ∈ circPairs (digitalCodes dsq L)) ∧
+      ∃ x, codes.toList.head? = some x ∧ x ∈ digitalCodes dsq L := by
+  have hlen : (digitalCodes dsq L).length = L := by simp [digitalCodes]; omega
+  unfold xMarkov1 at h
+  split at h
+  · simp at h
+  · split at h
+    · rename_i h2; simp only [SeqResult.ok.injEq] at h; exact Or.inl ⟨h2, h.symm⟩
+    · rename_i h2
+      obtain ⟨codes, h1, h3⟩ := ofOpt_ok _ _ out h
+      obtain ⟨h4, h5, h6⟩ := markov1_support K (digitalCodes dsq L) (by omega) r codes h1
+      exact Or.inr ⟨codes, h3, by omega, h5, h6⟩
+end numeric
+
+/-- non-vacuity: the rationals are a lawful number type, so the theorems above apply to the code read in exact arithmetic -/
+example : LawfulCNum ℚ := inferInstance
 
 /-! non-vacuity: concrete instances of the hypotheses -/
 example : (3 : Nat) + 2 ≤ (#[255, 1, 2, 3, 255] : Bytes).size := by decide
